@@ -82,6 +82,19 @@ def run(rep, wd, tier, seed):
     rep.sample({'trace': batches[0][0]['_desc'], 'events': [e['op'] + ':' + e['out'] for e in batches[0][0]['events']]})
     rep.sample({'trace': batches[-1][-1]['_desc']})
     vbsc.validate(rep, wd, batches, 'vbs')
+    # the configured maximum record length changed at run time (after the library has been imported and used)
+    from cardutil import config as cfgmod
+    saved = cfgmod.config.get('MAX_VBS_RECORD_LENGTH', 6000)
+    try:
+        for newmax in (8000, 1000):
+            cfgmod.config['MAX_VBS_RECORD_LENGTH'] = newmax
+            ts = _drive((seed, [(i, 'single', n, i % 4) for i, n in enumerate((newmax - 1, newmax, newmax + 1, 6000 if newmax > 6000 else 999,
+                                                                              6001 if newmax > 6000 else 1001))]))
+            for t in ts:
+                t['_desc'] += ' with MAX_VBS_RECORD_LENGTH changed to %d at run time' % newmax
+            vbsc.validate(rep, wd, [ts], 'vbs-maxlen-%d' % newmax, maxlen=newmax)
+    finally:
+        cfgmod.config['MAX_VBS_RECORD_LENGTH'] = saved
     rep.extra['single_record_lengths'] = 'all 1..%d' % (maxlen + 2) if tier == 'thorough' else 'boundary + sampled (%d lengths)' % len(single_lengths(tier, seed, maxlen))
     rep.exhaustive = tier == 'thorough'
 
